@@ -381,7 +381,7 @@ impl Legacy {
         match self.step {
             0 => {
                 self.send(auth_msg(Msg::Name(proto_auth::NameMessage {
-                    name: format!("n{:010}@host", rank),
+                    name: node_name(rank),
                     flags: Some(proto_auth::NodeFlags { version: 1 }),
                     connection_string: format!("legacy{rank}:1"),
                     connection_id: self.nonce,
@@ -474,7 +474,7 @@ async fn barrier() {
 }
 
 fn rank_of(name: &str) -> u64 {
-    name.strip_prefix('n').and_then(|x| x.split('@').next()).and_then(|x| x.parse().ok()).unwrap_or(u64::MAX)
+    node_rank(name)
 }
 
 async fn snapshot(nodes: &[ActorRef<NodeServerMessage>], conns: &[Conn]) -> String {
@@ -603,7 +603,11 @@ async fn run_case(line: String) -> String {
     for (i, r) in ranks.iter().enumerate() {
         let (n, h) = Actor::spawn(
             None,
-            NodeServer::new(0, "cookie".to_string(), format!("n{:010}", r), "host".to_string(), None, None),
+            {
+                let full = node_name(*r);
+                let (n, h) = full.split_once('@').unwrap();
+                NodeServer::new(0, "cookie".to_string(), n.to_string(), h.to_string(), None, None)
+            },
             (),
         )
         .await
